@@ -704,6 +704,9 @@ func runConc(r *rec, g *rng, tier, what, out string, extra map[string]interface{
 			c.scenarioClose(0, cs, "overflow")
 		}
 	}
+	if want("C06") {
+		c.raceClose(r, "C06", thorough)
+	}
 	if want("C13") {
 		n := 300
 		if thorough {
@@ -721,50 +724,7 @@ func runConc(r *rec, g *rng, tier, what, out string, extra map[string]interface{
 			c.scenarioLinearizable(g, i)
 		}
 		r.emit("scenario", fmt.Sprintf("scenario linearizable histories=%d", n), "ok")
-		// Add racing Close, many times (finding F6)
-		m := 400
-		if thorough {
-			m = 6000
-		}
-		dir, err := os.MkdirTemp("", "fsnverif-race")
-		check(err)
-		defer os.RemoveAll(dir)
-		bad := map[string]int{}
-		for i := 0; i < m; i++ {
-			w, err := fsnotify.NewWatcher()
-			check(err)
-			var wg sync.WaitGroup
-			var e2 error
-			adds := make([]error, 6)
-			start := make(chan struct{})
-			for a := range adds {
-				wg.Add(1)
-				go func(a int) {
-					defer wg.Done()
-					<-start
-					for k := 0; k < 3 && adds[a] == nil; k++ {
-						adds[a] = w.Add(dir)
-					}
-				}(a)
-			}
-			wg.Add(2)
-			go func() { defer wg.Done(); <-start; e2 = w.Remove(dir) }()
-			go func() { defer wg.Done(); <-start; runtime.Gosched(); w.Close() }()
-			close(start)
-			wg.Wait()
-			for _, e1 := range adds {
-				if e1 != nil && !errors.Is(e1, fsnotify.ErrClosed) {
-					bad["add:"+errClass(e1)]++
-				}
-			}
-			if e2 != nil && !errors.Is(e2, fsnotify.ErrNonExistentWatch) {
-				bad["remove:"+errClass(e2)]++
-			}
-		}
-		for k, n := range bad {
-			c.report("C07", "C07:call-racing-close:"+k, fmt.Sprintf("%d of %d calls racing Close returned %s (the syscall ran on the closed descriptor)", n, m, k), map[string]interface{}{})
-		}
-		r.emit("scenario", fmt.Sprintf("scenario race_close rounds=%d", m), "ok")
+		c.raceClose(r, "C07", thorough)
 	}
 	if want("C14") {
 		for _, nw := range []int{1, 2, 3, 5, 8} {
@@ -779,4 +739,53 @@ func runConc(r *rec, g *rng, tier, what, out string, extra map[string]interface{
 			c.scenarioAbsorb(sz)
 		}
 	}
+}
+
+// raceClose: Add / Remove racing Close, many times (finding F6). A call that acts after Close has
+// released the descriptor must say ErrClosed (Add) or nil (Remove) — C06's "from then on", C07's
+// "consistent with some sequential order" — never an error from a syscall on the dead descriptor.
+func (c *concCtx) raceClose(r *rec, prop string, thorough bool) {
+	m := 400
+	if thorough {
+		m = 6000
+	}
+	dir, err := os.MkdirTemp("", "fsnverif-race")
+	check(err)
+	defer os.RemoveAll(dir)
+	bad := map[string]int{}
+	for i := 0; i < m; i++ {
+		w, err := fsnotify.NewWatcher()
+		check(err)
+		var wg sync.WaitGroup
+		var e2 error
+		adds := make([]error, 6)
+		start := make(chan struct{})
+		for a := range adds {
+			wg.Add(1)
+			go func(a int) {
+				defer wg.Done()
+				<-start
+				for k := 0; k < 3 && adds[a] == nil; k++ {
+					adds[a] = w.Add(dir)
+				}
+			}(a)
+		}
+		wg.Add(2)
+		go func() { defer wg.Done(); <-start; e2 = w.Remove(dir) }()
+		go func() { defer wg.Done(); <-start; runtime.Gosched(); w.Close() }()
+		close(start)
+		wg.Wait()
+		for _, e1 := range adds {
+			if e1 != nil && !errors.Is(e1, fsnotify.ErrClosed) {
+				bad["add:"+errClass(e1)]++
+			}
+		}
+		if e2 != nil && !errors.Is(e2, fsnotify.ErrNonExistentWatch) {
+			bad["remove:"+errClass(e2)]++
+		}
+	}
+	for k, n := range bad {
+		c.report(prop, prop+":call-racing-close:"+k, fmt.Sprintf("%d of %d calls racing Close returned %s (the syscall ran on the closed descriptor)", n, m, k), map[string]interface{}{})
+	}
+	r.emit("scenario", fmt.Sprintf("scenario race_close rounds=%d", m), "ok")
 }
